@@ -23,17 +23,17 @@ func init() {
 		TrustedBase: []string{"go/types, go/cfg", "rules C03/R1, C04/R3, C04/R4 as defined for their properties"},
 		Rules: []Rule{
 			{ID: "C05/R1", Run: func(c *core.Ctx) { c04r3(c); c04r4(c) }, Min: 5},
-			{ID: "C05/R2", Run: c03r1, Min: 20},
+			{ID: "C05/R2", Run: c03r1, Min: 1},
 			{ID: "C05/R3", Run: c05r3, Min: 1},
 			{ID: "C05/R4", Run: c05r4, Min: 1},
-			{ID: "C05/R5", Run: c05r5, Min: 20},
+			{ID: "C05/R5", Run: c05r5, Min: 1},
 		},
 	})
 }
 
 func c05r3(c *core.Ctx) {
 	m := c.M
-	fld := m.Prog.LookupField("cache", "filters")
+	fld := m.FieldByKey("cache.filters")
 	if fld == nil {
 		c.Undecide("C05/R3", "anchor", "cache.filters not found")
 		return
